@@ -14,21 +14,30 @@ P == Progs[pid]
 \* (to a fixpoint: the termination of an actor can make a communication fail and so answer another actor)
 RECURSIVE SettleAll(_, _)
 SettleAll(Pr, s) ==
-  IF s.aborted \/ ~(\E a \in Actors(Pr) : s.ph[a] = "answered") THEN s
-  ELSE LET a == CHOOSE x \in Actors(Pr) : s.ph[x] = "answered" IN
+  IF s.aborted THEN s
+  ELSE IF \E a \in Actors(Pr) : s.ph[a] = "answered"
+  THEN LET a == CHOOSE x \in Actors(Pr) : s.ph[x] = "answered" IN
        SettleAll(Pr, IF MoreSub(Pr, s, a) THEN NextSub(Pr, s, a) ELSE Ret(Pr, s, a))
+  ELSE IF \E a \in Actors(Pr) : s.ph[a] = "dying"
+  THEN LET a == CHOOSE x \in Actors(Pr) : s.ph[x] = "dying" IN SettleAll(Pr, Terminate(Pr, s, a, "dead"))
+  ELSE IF \E a \in Actors(Pr) : s.ph[a] = "exiting"
+  THEN LET a == CHOOSE x \in Actors(Pr) : s.ph[x] = "exiting" IN SettleAll(Pr, RunOnExit(Pr, s, a))
+  ELSE s
 
 Init == pid \in 1..Len(Progs) /\ st = S0(Progs[pid])
 
 Step(a) == st.ph[a] = "run" /\ st' = SettleAll(P, Handle(P, st, a))
 Fire(a) == CanFire(st, a) /\ st' = SettleAll(P, FireTimer(P, st, a))
 Comp(c) == CanComplete(st, c) /\ st' = SettleAll(P, Complete(P, st, c))
+KillT(a) == KillDue(st, a) /\ st' = SettleAll(P, KillActor(P, st, a))
+DKill    == OnlyDaemons(P, st) /\ st' = SettleAll(P, DaemonKill(P, st))
 Adv     == CanAdvance(P, st) /\ st' = Advance(P, st)
 
 Next == /\ ~st.aborted
         /\ UNCHANGED pid
-        /\ \/ \E a \in Actors(P) : Step(a) \/ Fire(a)
+        /\ \/ \E a \in Actors(P) : Step(a) \/ Fire(a) \/ KillT(a)
            \/ \E c \in 1..Len(st.act) : Comp(c)
+           \/ DKill
            \/ Adv
 Spec == Init /\ [][Next]_vars
 
